@@ -69,7 +69,10 @@ def build_translator():
 
 
 def regenerate():
-    if not os.path.exists(os.path.join(BIN, "translator")):
+    tb = os.path.join(BIN, "translator")
+    tdir = os.path.join(VERIF, "translator")
+    srcs = [os.path.join(tdir, f) for f in os.listdir(tdir) if f.endswith(".go")]
+    if not os.path.exists(tb) or any(os.path.getmtime(f) > os.path.getmtime(tb) for f in srcs):
         build_translator()
     rc, out = sh([os.path.join(BIN, "translator"), "-repo", REPO, "-out", os.path.join(COQ, "gen")], timeout=120)
     return rc, out
